@@ -22,14 +22,17 @@ type c06Ev struct {
 	Code int
 	PMID int
 	Ms   int
+	PLen int // send: payload length (> 0: POST with a patterned body)
 }
 
 func (e c06Ev) desc() string {
 	switch e.Kind {
 	case "send":
-		return fmt.Sprintf("send:%d:%x:%d", e.ID, e.Tok, e.DL)
+		return fmt.Sprintf("send:%d:%x:%d:%d", e.ID, e.Tok, e.DL, e.PLen)
 	case "age":
 		return fmt.Sprintf("age:%d", e.Ms)
+	case "wait":
+		return fmt.Sprintf("wait:%d", e.Ms)
 	case "tick":
 		return "tick"
 	case "piggy":
@@ -53,7 +56,10 @@ func parseC06Ev(s string) c06Ev {
 			e.Tok = append(e.Tok, byte(b))
 		}
 		e.DL = atoi(f[3])
-	case "age":
+		if len(f) > 4 {
+			e.PLen = atoi(f[4])
+		}
+	case "age", "wait":
 		e.Ms = atoi(f[1])
 	case "tick":
 	case "piggy":
@@ -74,7 +80,7 @@ func (e c06Ev) coq() string {
 			dl = fmt.Sprintf("(Some %d)", e.DL)
 		}
 		return fmt.Sprintf("(Send %d %s %s)", e.ID, coqBytes(e.Tok), dl)
-	case "age":
+	case "age", "wait":
 		return fmt.Sprintf("(Age %d)", e.Ms)
 	case "tick":
 		return "Tick"
@@ -93,6 +99,7 @@ func (e c06Ev) coq() string {
 }
 
 type c06Req struct {
+	code   int
 	id     int
 	tok    []byte
 	mid    int
@@ -151,9 +158,16 @@ func runC06History(evs []c06Ev, ackMs, maxRt, nstart int) string {
 			order = append(order, e.ID)
 			req := mc.cc.AcquireMessage(ctx)
 			req.SetCode(codes.GET)
+			r.code = int(codes.GET)
 			req.SetToken(e.Tok)
 			req.SetType(message.Confirmable)
 			_ = req.SetPath("/r")
+			if e.PLen > 0 {
+				req.SetCode(codes.POST)
+				r.code = int(codes.POST)
+				req.SetContentFormat(message.AppOctets)
+				req.SetBody(bytes.NewReader(genBody(e.ID, e.PLen)))
+			}
 			go func(id int) {
 				resp, err := mc.cc.Do(req)
 				respCode := 0
@@ -185,6 +199,9 @@ func runC06History(evs []c06Ev, ackMs, maxRt, nstart int) string {
 			}(e.ID)
 		case "age":
 			mc.cc.VerifShiftPending(time.Duration(e.Ms) * time.Millisecond)
+		case "wait":
+			// real time passes (for every pending entry alike); not a synchronisation device
+			time.Sleep(time.Duration(e.Ms) * time.Millisecond)
 		case "tick":
 			mc.cc.CheckExpirations(time.Now())
 		case "ack", "rst", "piggy":
@@ -227,7 +244,7 @@ func runC06History(evs []c06Ev, ackMs, maxRt, nstart int) string {
 				}
 			}
 		}
-		if e.Kind != "age" {
+		if e.Kind != "age" && e.Kind != "wait" {
 			// barrier: everything injected has been dispatched by the reader loop
 			mc.sync()
 			// then wait until the goroutines woken by this event have had their effect: the output and
@@ -262,7 +279,7 @@ func runC06History(evs []c06Ev, ackMs, maxRt, nstart int) string {
 			if !w.Bad {
 				for _, id := range order {
 					r := reqs[id]
-					if r.first == nil && bytes.Equal(w.Tok, r.tok) && w.Typ == 0 && w.Code == int(codes.GET) {
+					if r.first == nil && bytes.Equal(w.Tok, r.tok) && w.Typ == 0 && w.Code == r.code {
 						r.first = w.Raw
 						r.mid = w.MID
 						mc.avoidMID[w.MID] = true
@@ -270,7 +287,7 @@ func runC06History(evs []c06Ev, ackMs, maxRt, nstart int) string {
 						matched = true
 						break
 					}
-					if r.first != nil && w.MID == r.mid && w.Typ == 0 && w.Code == int(codes.GET) {
+					if r.first != nil && w.MID == r.mid && w.Typ == 0 && w.Code == r.code {
 						ems = append(ems, fmt.Sprintf("OCopy %d %s", id, coqBool(bytes.Equal(w.Raw, r.first))))
 						matched = true
 						break
@@ -439,5 +456,20 @@ func runC06(a runArgs) error {
 	emit(full, 2000, 4, 1)
 	emit([]c06Ev{{Kind: "send", ID: 1, Tok: []byte{9}}, {Kind: "age", Ms: 2500}, {Kind: "tick"}, {Kind: "piggy", ID: 1, Code: 69}, {Kind: "age", Ms: 2500}, {Kind: "tick"}}, 2000, 4, 1)
 	emit([]c06Ev{{Kind: "send", ID: 1, Tok: []byte{9}}, {Kind: "send", ID: 2, Tok: []byte{8}}, {Kind: "ack", ID: 1}, {Kind: "sep", ID: 1, Code: 69, PMID: 500}, {Kind: "rst", ID: 2}, {Kind: "age", Ms: 2500}, {Kind: "tick"}, {Kind: "cancel", ID: 2}}, 2000, 4, 1)
+	// two requests (one with a payload) due for retransmission in the same tick; the visiting order of
+	// the tick is Go's map order, so the scenario is repeated
+	for i := 0; i < 10; i++ {
+		first, second := c06Ev{Kind: "send", ID: 1, Tok: []byte{0x50, byte(i)}, PLen: 33}, c06Ev{Kind: "send", ID: 2, Tok: []byte{0x51, byte(i)}}
+		if i%2 == 1 {
+			first, second = c06Ev{Kind: "send", ID: 1, Tok: []byte{0x51, byte(i)}}, c06Ev{Kind: "send", ID: 2, Tok: []byte{0x50, byte(i)}, PLen: 33}
+		}
+		emit([]c06Ev{first, second, {Kind: "age", Ms: 1500}, {Kind: "tick"}, {Kind: "age", Ms: 1000}, {Kind: "tick"}, {Kind: "ack", ID: 1}, {Kind: "cancel", ID: 2}, {Kind: "cancel", ID: 1}}, 1000, 2, 2)
+	}
+	// a request that had to queue for its NSTART slot while real time passed: its retransmission timer
+	// starts at its own first transmission, not when it was issued
+	for i := 0; i < 2; i++ {
+		emit([]c06Ev{{Kind: "send", ID: 1, Tok: []byte{0x60, byte(i)}}, {Kind: "send", ID: 2, Tok: []byte{0x61, byte(i)}}, {Kind: "wait", Ms: 700},
+			{Kind: "ack", ID: 1}, {Kind: "age", Ms: 1500}, {Kind: "tick"}, {Kind: "age", Ms: 900}, {Kind: "tick"}, {Kind: "cancel", ID: 2}, {Kind: "cancel", ID: 1}}, 2000, 2, 1)
+	}
 	return e.Flush(a.out)
 }
